@@ -790,6 +790,9 @@ func (f *TimespanFormat) parse(str string) (time.Duration, bool) {
 		}
 		nanoseconds += segment.nanoseconds(group, segment.multiplier())
 	}
+	if len(str) > 0 && str[0] == '-' {
+		nanoseconds = -nanoseconds
+	}
 	return time.Duration(nanoseconds), true
 }
 
